@@ -21,7 +21,7 @@ CONFIG = {
                    "simulator itself are harness errors, virtual deadlocks (no runnable task, no pending event) are "
                    "reported as 'never terminates'."),
     "technique": "deterministic simulation: seeded thread interleavings (baton passing, line-level pre-emption) x simulated network faults, twin-run oracle in virtual time",
-    "quick": {"runs": 640, "budget_s": 60},
+    "quick": {"runs": 2560, "budget_s": 90},
     "thorough": {"runs": 12000, "budget_s": 540},
     "rule": ("one run = small world + one command through the real CLI group under one network script and one seeded "
              "schedule, plus its twin; one evaluation = that pair. Distinct = hash of the (reason, task) schedule sequence "
